@@ -39,7 +39,23 @@ pub fn decode(mut src: &[u8]) -> io::Result<Vec<u8>> {
 
             last_len = record.len;
 
+            // A record has at least one quality score and ends within the output.
+            if record.len == 0 || record.len > uncompressed_size - i {
+                return Err(io::Error::new(
+                    io::ErrorKind::InvalidData,
+                    "invalid record length",
+                ));
+            }
+
             if record.is_duplicate {
+                // A duplicate is a copy of the `len` quality scores that precede it.
+                if record.len > i {
+                    return Err(io::Error::new(
+                        io::ErrorKind::InvalidData,
+                        "invalid duplicate record length",
+                    ));
+                }
+
                 copy_record(&mut dst, i, record.len);
 
                 i += record.len;
@@ -238,6 +254,23 @@ mod tests {
         assert_eq!(actual, expected);
 
         Ok(())
+    }
+
+    #[test]
+    fn test_decode_with_invalid_record_length() {
+        // The first record has a length of 0.
+        let src = [
+            0x30, 0x05, 0x00, 0x00, 0x00, 0x20, 0x27, 0x95, 0x7f, 0x0f, 0x01, 0x01, 0x7d, 0xff,
+            0xff, 0x01, 0x84, 0x00, 0x00, 0x00, 0x00, 0x00, 0x01, 0x2d, 0x9c, 0xad, 0x1f, 0x61,
+            0x78, 0xfa, 0xa5, 0x4c, 0x34, 0xfa, 0x66, 0x0f, 0xda, 0x9a, 0x45, 0xf0, 0x8e, 0xdb,
+            0x74, 0x36, 0xb6, 0x63, 0xc2, 0x8b, 0xcd, 0x99, 0xc9, 0x54, 0xe0, 0x41, 0x07, 0x9a,
+            0xad, 0x36, 0x3a, 0x21, 0xad, 0x4d, 0x56,
+        ];
+
+        assert!(matches!(
+            decode(&src),
+            Err(e) if e.kind() == io::ErrorKind::InvalidData
+        ));
     }
 
     #[test]
